@@ -27,7 +27,7 @@ Transcribed (same branches, same order of side effects):
 * `EvalLambdaNode` (`Expr.lam`): constant type / `IsDynamic` / `Type` of the body, every `EvalX` = `Type`, type test, then
   the body's `EvalX` with the state the NODE owns (created in `NewEvalLambdaNode` / `copyReset`), not the state passed
   in; the states of the lambda nodes travel in `FnState.lams`, and `World` (end of this file) says who shares what since
-  `fix:` dcda92d: `CopyReset` = `copyResetNodeEvaluator` gives every copy its own `Funcs`, its own lambda nodes (fresh
+  `fix:` 8ed14ac: `CopyReset` = `copyResetNodeEvaluator` gives every copy its own `Funcs`, its own lambda nodes (fresh
   state each) and its own copies of the node evaluators above a lambda node; every other node evaluator, with its
   specialisation cache, is shared by all copies. `OldWorld` is the sharing before the fix (lambda-node states shared).
 Abstracted: error values are one class (no decision of the repaired evaluator depends on the error);
@@ -769,7 +769,7 @@ def mixCache {F : Type} : Expr F → Cache → Cache → Cache
   | .lam _ e, own, sh => .node own.lt own.rt own.fn (mixCache e own.k1 sh.k1) own.k2 own.k3
   | _, _, sh => sh
 
-/-- What exists at run time for ONE compiled expression used by several groups (`fix:` dcda92d): `CopyReset` gives
+/-- What exists at run time for ONE compiled expression used by several groups (`fix:` 8ed14ac): `CopyReset` gives
 every copy an `ExecutionState` of its own AND its own lambda nodes, each with a fresh state — the node evaluators on the
 path from the root to a lambda node are copied with them (`own`: the copy's records of those nodes; a copy starts with
 what the original holds at that moment), all other node evaluators, with their specialisation cache, exist once and are
@@ -824,7 +824,7 @@ def World.runOps {F : Type} (ctx : Ctx F) (e : Expr F) : World F → List (WOp F
   | w, .ask q :: rest => (w.step ctx e q.1 q.2.1 q.2.2).1 :: World.runOps ctx e (w.step ctx e q.1 q.2.1 q.2.2).2 rest
   | w, .copy k :: rest => World.runOps ctx e (w.copy ctx k) rest
 
-/-! ### the world before `fix:` dcda92d (kept for the counterexample theorem) -/
+/-! ### the world before `fix:` 8ed14ac (kept for the counterexample theorem) -/
 
 /-- As the code was: `CopyReset` copied the `nodeEvaluator` POINTER, so the node evaluators — with their specialisation
 cache AND the `ExecutionState` of every lambda node — existed once and were shared by all copies; each copy owned only
